@@ -205,8 +205,9 @@ Definition decoder_decode : call := mkCall "Decode;GetPixelData"
     (* set from MCT segments without MCC, or a JP2MCT COM; otherwise the (reset) value stays *)
     SAssign "extractMCTFromMarkers" "mctInverse" "mct.inverse_or_keep" ["cs"; "components"; "mctInverse"; "mctOffsets"];
     SAssign "extractMCTFromMarkers" "mctOffsets" "mct.offsets_or_keep" ["cs"; "components"; "mctOffsets"];
-    (* d.bindings = append(d.bindings, b) for every MCC stage, onto the list reset above *)
-    SAppend "extractBindings" "bindings" "mcc.bindings" ["cs"];
+    (* d.bindings = append(d.bindings, b) for every MCC stage whose component ids are all
+       < d.components (range check added by cf93e3d), onto the list reset above *)
+    SAppend "extractBindings" "bindings" "mcc.bindings" ["cs"; "components"];
     SReset "resolveROI" "RoiRects";
     SAssign "resolveROI" "roiShifts" "roi.shifts_or_keep" ["roiConfig"; "streamROI"; "roi"; "width"; "height"; "components"; "roiShifts"];
     SAssign "resolveROI" "RoiRects" "roi.rects_or_keep" ["roiConfig"; "streamROI"; "roi"; "width"; "height"; "components"; "RoiRects"];
